@@ -55,7 +55,7 @@ func main() {
 	cfg := vlib.Load()
 	rep := vlib.NewReport(cfg)
 	rep.Rule("sequential case = 4-8 generated options (4 types x regex / allowed values / validation function / release level) plus the built-in release-level and expertise options, " +
-		"and 40-70 PRNG-chosen operations (SetConfigOption, SetDefaultConfigOption, ReplaceConfig, ReplaceDefaultConfig, SaveConfig, load, load of a hand-written file, new getters, Perspective) " +
+		"and 40-70 PRNG-chosen operations (SetConfigOption, SetDefaultConfigOption, ReplaceConfig, ReplaceDefaultConfig, SaveConfig, load, load of a hand-written file, new getters, Perspective objects that are kept alive and re-read (all getters + Has) after every later step) " +
 		"with acceptable and unacceptable values of every Go type and JSON-decoded shape; after every step all getters (old and new, plain and Concurrent, wrong-type, unknown), UserValue/IsSetByUser, " +
 		"GetActiveConfigValues and the returned errors are compared with a three-layer model. concurrent case = one setter (40-160 operations with unique increasing values; set/default/replace/delete/release-level gate scripts) " +
 		"against 2-16 readers using shared Concurrent getters, private plain getters and fresh getters, under a hook plan (none, random delays, reader parked between flag and value, setter parked before the signal), " +
@@ -168,6 +168,7 @@ func main() {
 		rep.Floor(rep.Counter("concurrent_reads") >= 100000, "concurrent reads=%d (<1e5)", rep.Counter("concurrent_reads"))
 		rep.Floor(rep.SeenCount("interleaving_signatures") >= 20, "distinct interleaving signatures=%d (<20)", rep.SeenCount("interleaving_signatures"))
 		rep.Floor(rep.Counter("quiescence_checks") >= 300, "quiescence checks after concurrent setters=%d (<300)", rep.Counter("quiescence_checks"))
+		rep.Floor(rep.Counter("perspective_reads_after_level_change") >= 10000, "reads of kept-alive perspectives after a release-level change=%d (<10000)", rep.Counter("perspective_reads_after_level_change"))
 		rep.Floor(rep.SeenCount("op_kinds") >= 9, "operation kinds seen=%d", rep.SeenCount("op_kinds"))
 		// every option type x constraint kind x set-like operation
 		missing := 0
